@@ -32,4 +32,5 @@ def check(name):
     """
     if isinstance(name, bytes):
         name = name.decode()
-    return "/" not in name
+    # HDF5 link names are NUL terminated: an embedded NUL would silently truncate the name
+    return "/" not in name and "\0" not in name
